@@ -255,6 +255,9 @@ Gen ==
       /\ (E.compiled => /\ A("C14", "ids-inside-matrix-and-costs-16-bit", C14Ids(p) /\ C14Costs16(p))
                         /\ A("C16", "small-dictionary-agrees-with-matrix",
                              (StarListed(E.bg) /\ DevStarCollision) \/ (SmallAgrees(p, E.small.raw) /\ DualAgrees(p, E.small.dual, E.bg))))
+      /\ (E.compiled /\ "mat" \in DOMAIN E.small.raw /\ "mat" \in DOMAIN E.small.dual =>
+            A("C16", "small-dictionary-keeps-its-costs-when-its-ids-are-reordered",
+              E.small.raw.mapped = E.small.raw.mat /\ E.small.dual.mapped = E.small.dual.mat))
       /\ A("C15", "same-model-state-same-files", \A x \in keyed : \A y \in memo : (x[1] = y[1] /\ x[2] = y[2]) => x[3] = y[3])
       /\ memo' = memo \cup keyed
    /\ UNCHANGED <<tin, m, M, mext, ext, users, hasDisk>>
